@@ -79,6 +79,10 @@ func validateIssueTokenBaseFee(i interface{}) error {
 	if err := v.Validate(); err != nil {
 		return fmt.Errorf("invalid base fee for issuing token: %w", err)
 	}
+	// the fee arithmetic (LegacyDec) takes amount * 10^scale of the fee token (scale <= 18) up to 255 bits
+	if v.Amount.BigInt().BitLen() > 195 {
+		return fmt.Errorf("base fee for issuing token too large (more than 195 bits)")
+	}
 	if v.IsNegative() {
 		return fmt.Errorf("base fee for issuing token should not be negative")
 	}
